@@ -20,6 +20,15 @@ func cliLeg(r *runner, sample []kase) {
 	for i := range sample {
 		sample[i].id = "cli-" + sample[i].id
 	}
+	// every third pattern case also through the negated operator
+	n := len(sample)
+	for i := 0; i < n; i++ {
+		if k := sample[i]; i%3 == 0 && (k.fn == "like" || k.fn == "~" || k.fn == "~*") && !strings.HasPrefix(k.id, "cli-probe") {
+			k.neg = true
+			k.id += "-neg"
+			sample = append(sample, k)
+		}
+	}
 	if r.only != "" {
 		var one []kase
 		for _, k := range sample {
